@@ -6,5 +6,13 @@ import "verif/internal/gen"
 // once its defect is fixed in /repo (see known_findings.json "fixed"); open findings keep theirs off and are
 // exercised through their concrete inputs under known/.
 func currentHazards() gen.Hazards {
-	return gen.Hazards{}
+	return gen.Hazards{
+		StdSingleClash: true, // fixed a4b2eb2
+		UnionNamedTerm: true, // fixed cf7f533 (still only with -skip-ensure: KF-self-check-representative)
+		NumberedDup:    true, // fixed 2f404a1
+		NonASCIIName:   true, // fixed 3668f90
+		LowerTypeParam: true, // fixed 1150cbd
+		UnsafePointer:  true, // fixed 9240fc9
+		SamePkgName:    true, // fixed b08f5fd
+	}
 }
